@@ -80,6 +80,22 @@ Definition complete_in (sent : list (list N)) (evs : list rev) (id : N) : Prop :
       else forall idx, idx < num_slices_of m -> In (RSlice id idx) evs
   end.
 
+(* ---------- sortedness of the association lists standing for BTreeMap / BTreeSet ---------- *)
+(* strictly ascending: sm_insert / sm_remove / ss_* behave like a map / set only on such lists *)
+Fixpoint asc (l : list N) : Prop :=
+  match l with
+  | [] => True
+  | k :: t => Forall (fun k' => k < k') t /\ asc t
+  end.
+
+(* "this id was already accepted": exactly the test rr_process_message performs *)
+Definition rr_seen (r : recv_rel) (id : N) : bool :=
+  (id <? rr_oldest r) ||
+  match rr_order r with
+  | Ordered => sm_mem id (rr_messages r)
+  | Unordered _ rcv => ss_mem id rcv
+  end.
+
 (* ---------- memory accounting ---------- *)
 Definition msgs_bytes (ms : list (N * list N)) : N := sum (map (fun im => len (snd im)) ms).
 Definition ctors_bytes (cs : list (N * sctor)) : N := sum (map (fun ic => sc_num (snd ic) * SLICE_SIZE) cs).
@@ -94,7 +110,16 @@ Definition sctor_wf (c : sctor) : Prop :=
 Definition rr_inv (r : recv_rel) : Prop :=
   rr_mem r = msgs_bytes (rr_messages r) + ctors_bytes (rr_slices r) /\
   rr_mem r <= rr_max r /\
-  Forall (fun ic => sctor_wf (snd ic)) (rr_slices r).
+  Forall (fun ic => sctor_wf (snd ic)) (rr_slices r) /\
+  asc (map fst (rr_slices r)) /\
+  asc (map fst (rr_messages r)) /\
+  match rr_order r with
+  | Ordered => True
+  | Unordered _ rcv =>
+      asc rcv /\
+      (* a message waiting in the buffer has been entered in the received set or passed by the cursor *)
+      (forall id, sm_mem id (rr_messages r) = true -> rr_seen r id = true)
+  end.
 
 Definition lasts_bytes (ms : list (list N)) : N := sum (map len ms).
 
@@ -103,7 +128,9 @@ Definition ru_inv (now : N) (r : recv_unrel) : Prop :=
   ru_mem r <= ru_max r /\
   Forall (fun ic => sctor_wf (snd ic)) (ru_slices r) /\
   (forall id, sm_mem id (ru_last r) = true -> sm_mem id (ru_slices r) = true) /\
-  (forall id t, sm_find id (ru_last r) = Some t -> t <= now).
+  (forall id t, sm_find id (ru_last r) = Some t -> t <= now) /\
+  asc (map fst (ru_slices r)) /\
+  asc (map fst (ru_last r)).
 
 (* arbitrary slices as the decoder can produce them *)
 Definition slice_decoded (s : slice) : Prop := 1 <= sl_num s /\ sl_num s <= MAX_NUM_SLICES.
